@@ -165,7 +165,8 @@ func wellFormed(k wfCase) (string, []byte, string, []byte) {
 		o := oInner{&in}
 		return "type3.InnerTokenRequest", in.Marshal(), o.Fields(), o.Hand()
 	case "chal":
-		names := []string{"a", "issuer.example", strings.Repeat("n", 255), strings.Repeat("n", 256), strings.Repeat("x", 65535)}
+		names := []string{"a", "issuer.example", strings.Repeat("n", 255), strings.Repeat("n", 256), strings.Repeat("x", 65535),
+			"issuer.example.", ".", "i", "ISSUER.Example", " issuer.example ", "issuer.example:443", "issuer,example", "issuer\x00example", "xn--bcher-kva.example", "b\u00fccher.example"}
 		many := func(n int) []string {
 			l := make([]string, n)
 			for i := range l {
@@ -564,6 +565,11 @@ func main() {
 				for or := 0; or < 16; or++ {
 					wf = append(wf, wfCase{Kind: "chal", A: t, B: nm, C: nl, D: or})
 				}
+			}
+		}
+		for nm := 5; nm < 15; nm++ { // issuer names that text processing damages
+			for _, or := range []int{0, 3} {
+				wf = append(wf, wfCase{Kind: "chal", A: t, B: nm, C: 32, D: or})
 			}
 		}
 	}
